@@ -25,6 +25,10 @@ func ParseRequests(msg []byte) ([]*ParsedRequest, error) {
 			Params: req.P,
 			Error:  req.err,
 		}
+		if req.err == nil && req.M == "" {
+			// Not a request: a Server answers such a member with this error.
+			out[i].Error = errEmptyMethod
+		}
 	}
 	return out, err
 }
